@@ -165,6 +165,28 @@ func (u *Unit) assumeAxioms(st *State) {
 }
 
 func (u *Unit) evalSpecBool(expr string, st *State, fn *ssa.Function, l *loopInfo) Term {
+	if expr == "@rangeupper" {
+		// compiler-generated range loop: header is  i = phi; j = i+1; if j < n
+		var phi *ssa.Phi
+		for _, ins := range l.header.Instrs {
+			if p, ok := ins.(*ssa.Phi); ok && p.Comment == "rangeindex" {
+				phi = p
+			}
+		}
+		if iff, ok := l.header.Instrs[len(l.header.Instrs)-1].(*ssa.If); ok && phi != nil {
+			if cmp, ok := iff.Cond.(*ssa.BinOp); ok && cmp.Op == token.LSS {
+				if add, ok := cmp.X.(*ssa.BinOp); ok && add.X == phi {
+					if n, ok := st.regs[cmp.Y]; ok {
+						return sx("<", st.regs[phi], n)
+					}
+					if c, ok := cmp.Y.(*ssa.Const); ok {
+						return sx("<", st.regs[phi], u.constTerm(c))
+					}
+				}
+			}
+		}
+		return "true"
+	}
 	pkg := fn.Pkg.Pkg
 	env := u.newEnv(st, u.entry, fn, pkg)
 	env.loop = l
